@@ -476,7 +476,11 @@ pub fn supervisor_main(info: &CheckInfo, total_runs: u64, tier: Tier, verif_seed
                         Ok((st, _o, e, to)) => {
                             let (class2, _) = death_class(&st, &e, i, to);
                             let (sig2, _) = death_signature(&st, &e, i, to);
-                            if (!st.success() || to) && class2 == class && (attempt == 0 || sig2 == sig) {
+                            // The two solo re-executions decide: both must end fatally with the same
+                            // signature. (Under load a run that dies of an allocation refusal when alone
+                            // may first have been seen as a timeout; the solo result is the reproducible one.)
+                            let _ = class2;
+                            if (!st.success() || to) && (attempt == 0 || sig2 == sig) {
                                 confirmed += 1;
                                 sig = sig2;
                             }
